@@ -93,7 +93,8 @@ def _z(b):
 
 
 class Item:
-    def __init__(self, name, kind, hyps, goal, lineno=None, expect='proved', replay=None, note=None, poly=False):
+    def __init__(self, name, kind, hyps, goal, lineno=None, expect='proved', replay=None, note=None, poly=False, pairs=True):
+        self.pairs = pairs
         self.name = name
         self.kind = kind
         self.hyps = [_z(h) for h in hyps]
@@ -341,8 +342,29 @@ class OB:
         inputs = dict(self.inputs)
         rtol = self._rtol
 
+        ob = self
+
         def replay(item, model):
             env = {k: model.get(k, 0.0) for k in inputs}
+            first = replay_at(item, env)
+            if first.get('reproduced'):
+                return first
+            # the solver's model may rest on a non-standard interpretation of an uninterpreted function, or sit on a
+            # measure-zero coincidence: search a few seeded random inputs that satisfy the contract's precondition
+            import random
+            rng = random.Random(int(os.environ.get('VERIF_SEED', '0')) + 4711)
+            for _ in range(24):
+                env2 = pick_inputs(ob, rng)
+                if env2 is None:
+                    break
+                r = replay_at(item, env2)
+                if r.get('reproduced'):
+                    r['note'] = 'failing input found by seeded search over the precondition (the solver model itself did not replay)'
+                    r['solver_model_replay'] = first
+                    return r
+            return first
+
+        def replay_at(item, env):
             try:
                 outs = realfn(dict(env))
             except Exception as e:   # noqa
@@ -427,7 +449,7 @@ class OB:
             raise Unbound(f"cannot merge path results of types {[type(v).__name__ for v in vals]}")
         return merge([p.result for p in rets]), conds
 
-    def prove(self, label, goal, under=None, kind='post', expect='proved', replay=None, poly=False, only=None, hide_nonlinear=False):
+    def prove(self, label, goal, under=None, kind='post', expect='proved', replay=None, poly=False, only=None, hide_nonlinear=False, pairs=True):
         """under: extra hypotheses (stated by the contract, e.g. a path condition).
         only: lemma boundary - discharge the goal from these formulas alone; each must be a current hypothesis
         or the goal of an earlier item of this generator (checked), so nothing is assumed that is not proved."""
@@ -435,7 +457,7 @@ class OB:
             hyps = [h for h in self.hyps if not is_nonlinear(h)] + (list(under) if under else [])
             if replay is None:
                 replay = self._replayer()
-            self.items.append(Item(label, kind, hyps, goal, expect=expect, replay=replay, poly=poly))
+            self.items.append(Item(label, kind, hyps, goal, expect=expect, replay=replay, poly=poly, pairs=pairs))
             return goal
         if only is not None:
             have = {h.get_id() for h in self.hyps if hasattr(h, 'get_id')}
@@ -448,7 +470,7 @@ class OB:
             hyps = list(self.hyps) + (list(under) if under else [])
         if replay is None:
             replay = self._replayer()
-        self.items.append(Item(label, kind, hyps, goal, expect=expect, replay=replay, poly=poly))
+        self.items.append(Item(label, kind, hyps, goal, expect=expect, replay=replay, poly=poly, pairs=pairs))
         return goal
 
     def hint(self, which, facts, hide_nonlinear=False):
@@ -567,7 +589,7 @@ def poly_identity(hyps, goal):
 def discharge(item, second_solver=False):
     """-> dict(verdict, backend, time, model, confirmed)"""
     fs = list(item.hyps) + [item.goal]
-    axioms = sym.instantiate_axioms(fs)
+    axioms = sym.instantiate_axioms(fs, pairs=getattr(item, 'pairs', True))
     neg = z3.Not(item.goal)
     assertions = list(item.hyps) + axioms + [neg]
     status, model, backend, secs = check_sat(assertions)
@@ -726,7 +748,7 @@ def crosscheck(ob, trials=4):
     for h in ob.hyps:
         if z3.is_eq(h) and h.arg(0).decl().arity() == 0 and h.arg(0).decl().name() in ob.results:
             defs[h.arg(0).decl().name()] = h.arg(1)
-    done, mism, skipped = 0, [], 0
+    done, mism, skipped, last_err = 0, [], 0, None
     for _ in range(trials):
         env = pick_inputs(ob, rng)
         if env is None:
@@ -736,6 +758,7 @@ def crosscheck(ob, trials=4):
             outs = ob._realfn(dict(env))
         except Exception as e:   # noqa
             skipped += 1
+            last_err = f"{type(e).__name__}: {e}"
             continue
         # fresh constants of the symbolic run (newton roots, eigenvalues) take the real values when the
         # replay function reports them under the same name
@@ -761,4 +784,6 @@ def crosscheck(ob, trials=4):
                 ok = abs(v - r) <= 1e-9 + 1e-7 * max(abs(v), abs(r))
             if not ok:
                 mism.append({'result': name, 'inputs': env, 'symbolic': v, 'real': r})
+    if done == 0:
+        return {'status': 'error', 'reason': f'no value could be compared (replay function broken?): {last_err}', 'compared': 0, 'skipped': skipped}
     return {'status': 'mismatch' if mism else 'ok', 'compared': done, 'skipped': skipped, 'mismatches': mism[:5]}
